@@ -317,6 +317,13 @@ func genSynGrammar(rng *rand.Rand, o synGenOpts) *SynGrammar {
 			}
 			run = append(run, N(nt))
 		}
+		// sometimes the run sits behind a nonterminal of its own, which is then nullable only
+		// through other nullable nonterminals
+		if rng.Intn(2) == 0 {
+			g.NTs = append(g.NTs, "OptAll")
+			g.Prods = append(g.Prods, SynProd{Head: len(g.NTs) - 1, Body: run})
+			run = []Sym{N(len(g.NTs) - 1)}
+		}
 		g.Terms = append(g.Terms, "oend")
 		g.IsLit = append(g.IsLit, false)
 		run = append(run, T(len(g.Terms)-1))
@@ -488,6 +495,9 @@ func curatedSyn() []*SynGrammar {
 		// a declaration with two adjacent optional parts (look-ahead through two nullable symbols)
 		synG([]string{"Decl", "OptType", "OptInit"}, []string{"\"var\"", "name", "\":\"", "\"=\"", "\";\""},
 			P(0, T(0), T(1), N(1), N(2), T(4)), P(1), P(1, T(2), T(1)), P(2), P(2, T(3), T(1))),
+		// a nonterminal that is nullable only through other nullable nonterminals, behind another nonterminal
+		synG([]string{"Pkg", "Name", "Decls", "Vars", "Funcs"}, []string{"\"pkg\"", "id", "\"end\"", "\"var\"", "\"func\""},
+			P(0, T(0), N(1), N(2), T(2)), P(1, T(1)), P(2, N(3), N(4)), P(3), P(3, T(3), T(1)), P(4), P(4, T(4), T(1))),
 		// three adjacent optional parts, the last alternative made of nullable symbols only
 		synG([]string{"S", "A", "B", "C"}, []string{"a", "b", "c", "z"},
 			P(0, N(1), N(2), N(3), T(3)), P(0, T(3), N(1), N(2)), P(1), P(1, T(0)), P(2), P(2, T(1)), P(3), P(3, T(2))),
